@@ -2,7 +2,7 @@
 from __future__ import annotations
 
 import copy
-from typing import Any, Dict, List, Optional
+from typing import Any, Dict, List, Optional, Union
 
 import jsonpath
 from jsonpath import JSONPathEnvironment
@@ -20,6 +20,7 @@ SAME_QUERY = RECOMPILED == C_ON and str(RECOMPILED) == str(C_ON) and hash(RECOMP
 SCHED = P.get("sched", 4)
 MAXN = P.get("maxn", 2)
 OI = Optional[int]
+KT = {"oi": Optional[int], "nbi": Union[None, bool, int]}[P.get("kleaf", "oi")]
 
 
 def mkdoc(k: OI, a0: OI, a1: OI, b1: OI, n: int) -> Dict[str, Any]:
@@ -37,7 +38,7 @@ def sig(ms: Any) -> List[Any]:
     return [(m.path, m.obj) for m in ms]
 
 
-def cache_eq(k: OI, a0: OI, a1: OI, b1: int, n: int, ck: OI) -> bool:
+def cache_eq(k: KT, a0: OI, a1: OI, b1: int, n: int, ck: OI) -> bool:
     """Caching on == caching off, and a reused compiled query == a fresh one.
 
     pre: 0 <= n <= MAXN
